@@ -25,17 +25,17 @@ from harness.core import st
 from harness.oracles import exc_bucket, snapshot
 
 ID = "C15"
-RULE = ("all annotations of depth <= 2 over 54 leaves x 17 unary and 5 binary constructors (exhaustive) plus sampled depth-3 "
+RULE = ("all annotations of depth <= 2 over 55 leaves x 17 unary and 5 binary constructors (exhaustive) plus sampled depth-3 "
         "annotations; non-trivial = an extended constructor (Any, object, bare/unparameterised generic, TypeVar, Callable, "
         "type[..], user Generic, hint-less class) occurs below the root; distinct by annotation expression")
 ASSUMPTIONS = ["annotations that Python itself refuses to construct are skipped (counted)",
-               "'behaves alike' is judged on a fixed battery of 19 inputs per routine"]
+               "'behaves alike' is judged on a fixed battery of 25 inputs per routine"]
 TECHNIQUE = "exhaustive enumeration of the annotation grammar to depth 2 + Hypothesis sampling at depth 3; totality oracle under watchdog, repeatability (three builds) and pass-through identity checks"
 LEVEL_TEXT = ("Complete enumeration of the extended constructor grammar to depth 2 (about 9 000 annotations) with construction "
               "of all three routine kinds under a watchdog, a repeat after a cache hit and after clearing all caches, a behavioural "
               "battery, and identity checks for pass-through members; depth 3 sampled.")
 LEVEL_NOTE = "trusts the watchdog (20 s, typical build 2 ms) as the meaning of 'terminates'"
-EXHAUSTIVE_NOTE = "depth <= 2: 54 leaves, 17 unary x 54 + 5 binary x 54 x 54 annotations, complete on every run"
+EXHAUSTIVE_NOTE = "depth <= 2: 55 leaves, 17 unary x 55 + 5 binary x 55 x 55 annotations, complete on every run"
 
 MOD = "c15_types_mod"
 SRC = '''
@@ -87,6 +87,16 @@ class SelfSet:
 class DCNoInit:
     a: int = 0
     made: list = dataclasses.field(default_factory=list, init=False)
+class Sparse:
+    """no hints; one of its attributes is only set when a value is given"""
+    def __init__(self, a=1, b=None):
+        self.a = a
+        if b is not None:
+            self.b = b
+    def __eq__(self, o):
+        return type(o) is type(self) and vars(o) == vars(self)
+    def __repr__(self):
+        return f"Sparse({vars(self)!r})"
 class Sentinel:
     def __repr__(self):
         return "<sentinel>"
@@ -103,12 +113,12 @@ LEAVES = ["int", "str", "float", "bool", "bytes", "decimal.Decimal", "datetime.d
           "typing.List", "typing.Dict", "typing.Tuple", "typing.Set", "typing.Sequence", "typing.Mapping", "T", "TB", "TC",
           "typing.Callable", "typing.Callable[..., int]", "typing.Callable[[int], str]", "collections.abc.Callable[[int], str]",
           "type", "type[int]", "typing.Type[DC]", "G", "G[int]", "NoHints", "NoHintsInit", "NoHintsDefaults", "DC", "E", "NT", "TD",
-          "typing.Literal[1, 'a']", "typing.Iterable", "collections.deque", "SelfSet", "DCNoInit", "AL_NoHints", "AL_listAny", "AL_Lit", "TBN", "NT_NoHints",
+          "typing.Literal[1, 'a']", "typing.Iterable", "collections.deque", "SelfSet", "DCNoInit", "Sparse", "AL_NoHints", "AL_listAny", "AL_Lit", "TBN", "NT_NoHints",
           "list[Any]"]
 EXTENDED = {"Any", "object", "list", "dict", "tuple", "set", "frozenset", "typing.List", "typing.Dict", "typing.Tuple",
             "typing.Set", "typing.Sequence", "typing.Mapping", "T", "TB", "TC", "typing.Callable", "typing.Callable[..., int]",
             "typing.Callable[[int], str]", "collections.abc.Callable[[int], str]", "type", "type[int]", "typing.Type[DC]", "G",
-            "G[int]", "NoHints", "NoHintsInit", "NoHintsDefaults", "typing.Iterable", "collections.deque", "SelfSet", "DCNoInit", "AL_NoHints", "AL_listAny", "AL_Lit", "TBN",
+            "G[int]", "NoHints", "NoHintsInit", "NoHintsDefaults", "typing.Iterable", "collections.deque", "SelfSet", "DCNoInit", "Sparse", "AL_NoHints", "AL_listAny", "AL_Lit", "TBN",
             "NT_NoHints", "list[Any]"}
 # classes without any annotation: the parameters of __init__ are their (unresolvable) members
 HINTLESS = {"NoHintsInit": ["a", "b"], "NoHintsDefaults": ["name", "retries", "label", "ratio", "flags", "when"]}
@@ -174,7 +184,9 @@ def _holder_eq(self, o):
 
 BATTERY_SRC = ["1", "'1'", "'a'", "None", "[1, '2']", "{'a': 1}", "(1, 2)", "1.5", "b'x'", "SENT", "{'x': 1, 'y': 2}", "[]",
                # instances of the classes that set an annotated attribute themselves, bare and inside the usual containers
-               "SelfSet(3)", "[SelfSet(3)]", "{'a': SelfSet(3)}", "DCNoInit(1)", "[DCNoInit(1)]", "{'value': '4'}", "{'a': '5'}"]
+               "SelfSet(3)", "[SelfSet(3)]", "{'a': SelfSet(3)}", "DCNoInit(1)", "[DCNoInit(1)]", "{'value': '4'}", "{'a': '5'}",
+               # the same complete object before and after one that lacks an attribute: equal inputs, equal outcomes
+               "Sparse(1, 2)", "[Sparse(1, 2)]", "Sparse(1)", "[Sparse(1)]", "Sparse(1, 2)", "[Sparse(1, 2)]"]
 
 
 def battery(T):
@@ -271,6 +283,13 @@ def check_annotation(expr, col, passthrough=None, nontrivial=False, source="exha
         elif _norm(b1) != want:
             col.violation("repeatable", case, f"{expr}: behaviour after earlier builds in this process differs from a fresh process: {_first_diff(_norm(b1), want)}",
                           bucket="vs-cold-process")
+    # one input given twice in a battery: the same outcome both times, whatever came in between
+    firsts = {}
+    for name_, src_, out_ in b1:
+        prev = firsts.setdefault((name_, src_), out_)
+        if prev != out_:
+            col.violation("repeatable", case, f"{expr}: {name_}({src_}) gave {prev!r:.100} and, later in the same battery, {out_!r:.100}", bucket="same-input-twice")
+            break
     b2 = battery(T)  # cache hit
     tl.clear_all()
     b3 = battery(T)
